@@ -120,6 +120,8 @@ def shape(e):
   kind = "region" if isinstance(e, model.Region) else KIND_OF.get(type(e))
   if not kids and kind not in ("br", "region", "body"):
     return None
+  if kind not in ("br", "region", "body") and e.get_end() is not None and e.get_end() <= (e.get_begin() or 0):
+    return None      # never active: the reader legitimately prunes elements without temporal extent
   # xml:id of content elements is written but not read back (the reader keeps ids of regions only)
   return (kind, None, tuple(kids))
 
@@ -504,8 +506,8 @@ def fam_times(tier):
     for lv in ("p", "region", "span", "anim"):
       for b in tv:
         for e in tv:
-          if (b is not None and e is not None and not b < e) or e == 0:
-            continue      # never-active elements are legitimately pruned by the reader
+          if b is not None and e is not None and not b < e:
+            continue
           items.append((c, lv, b, e))
 
   def dec(i):
